@@ -10,7 +10,10 @@ MANIFEST = {
             "(ASan+UBSan) against the compiled Lean driver, plus an independent property oracle.",
     "note": "Trusted: Lean kernel + propext/Classical.choice/Quot.sound; statements in lean/Properties/C20.lean; the "
             "harness/driver/comparator; little-endian x86-64; preconditions are explicit hypotheses checked per case "
-            "(key != invalid key, field zero before Write*, Pivot32 product < 2^64).",
+            "(key != invalid key, Insert only of keys not yet present, field zero before Write*, Pivot32 product < 2^64). "
+            "Probing table: hash arbitrary, any bucket count >= 1, keys/values naturals; AutoProbing's double-precision "
+            "threshold `buckets * 0.9` is taken as floor(9*buckets/10) and its initial size uses float32 — both exercised by "
+            "the correspondence stream on every construction/doubling, not proved.",
     "technique": "Lean 4 proof (induction/invariants over an executable model) + differential correspondence with the real code",
 }
 
